@@ -4,6 +4,7 @@ package main
 
 import (
 	"fmt"
+	"strings"
 	"go/constant"
 	"go/token"
 	"go/types"
@@ -266,6 +267,10 @@ func (f *Frame) execUnOp(in *ssa.UnOp, st *State) {
 		sh := c.shapeOf(x[0], in.X.Type())
 		f.nilCheck(st, sh, in.Pos(), "load through nil pointer")
 		f.set(in, c.load(st, sh))
+		if g, ok := in.X.(*ssa.Global); ok && g.Pkg != nil && !strings.HasPrefix(g.Pkg.Pkg.Path(), modulePath) && types.IsInterface(in.Type()) && (strings.HasPrefix(g.Name(), "Err") || g.Name() == "EOF") {
+			c.note("assumed", "exported error variables of dependencies ("+g.Pkg.Pkg.Name()+"."+g.Name()+", ...) are non-nil")
+			st.assume(c, Not(Eq(f.vals[in][0], IntLit(0))))
+		}
 	case token.NOT:
 		f.set(in, []Term{Not(x[0])})
 	case token.SUB:
